@@ -6,6 +6,7 @@ import (
 	"fmt"
 	"os"
 	"os/exec"
+	"strings"
 	"syscall"
 	"time"
 
@@ -160,8 +161,8 @@ func loopBound(tier string, sc LoopScenario) int {
 			b = 1
 		}
 	}
-	if tier == "thorough" {
-		b++
+	if tier == "thorough" && !strings.HasSuffix(sc.Name, "/mid") {
+		b++ // the mid-geometry scenarios have twice the yield points: one more preemption would take hours
 	}
 	return b
 }
